@@ -36,6 +36,11 @@ Check (C10_final_state_refines : forall a0 s0 I progs,
   snd (lrun s0 (with_choices ops outs)) = outs /\
   R (sh (run (c_new a0 I progs) s)) (fst (lrun s0 (with_choices ops outs))) /\
   LInv (fst (lrun s0 (with_choices ops outs)))).
+Check (C10_results_linearisable : forall a0 s0 I progs,
+  R a0 s0 -> LInv s0 -> forallb (hinit_okb a0) I = true -> forall s k t,
+  nth_error (threads (run (c_new a0 I progs) s)) k = Some t ->
+  thread_results a0 k (lin (run (c_new a0 I progs) s)) = flat_map lin_out (outs t) ++ pending_of a0 (tpc t) /\
+  (finished t = true -> thread_results a0 k (lin (run (c_new a0 I progs) s)) = flat_map lin_out (outs t))).
 Check (C10_queue_interleaving : forall a0 s0 I progs,
   R a0 s0 -> LInv s0 -> forallb (hinit_okb a0) I = true -> forall s,
   all_finished (run (c_new a0 I progs) s) = true ->
